@@ -87,9 +87,11 @@ def _solve_bruteforce(D, all_solutions, valid, spin, value):
     # if D is a Matrix object or QUBO, PUBO, etc, then these are defined
     try:
         N = D.num_binary_variables
-        # could do D.reverse_mapping, but that creates a copy. We just need to
-        # not mutate it here, then we don't have to waste time copying.
-        mapping = D._reverse_mapping
+        # position -> label, in the order of the integer labels (a mapping
+        # declared with set_mapping may have gaps)
+        mapping = dict(enumerate(
+            D._reverse_mapping[k] for k in sorted(D._reverse_mapping)
+        ))
     except AttributeError:
         var = set()
         for x in D:
